@@ -4,6 +4,7 @@ import WsModel.Spec.Rfc6455
 import WsModel.Monitor
 import WsModel.Handshake.Model
 import WsModel.Handshake.Run
+import WsModel.TwoParty
 
 /-! Line-protocol driver: replays harness transcripts through the model and prints the model's
 observations in the same canonical form, so the two streams can be diffed. -/
@@ -1135,10 +1136,26 @@ partial def runFsCase (lines : Array String) : Array String := Id.run do
     | [] => i := i + 1
   return out
 
+def parseOp (body : List String) : Option Op :=
+  match body with
+  | "read" :: _ => some .read
+  | "flush" :: _ => some .flush
+  | "close" :: rest => some (.close (parseClose rest))
+  | "write" :: rest => (parseMessage rest).map Op.write
+  | _ => none
+
+def showOut : Out → String
+  | .msg r => showResMsg r
+  | .unit r => showResUnit r
+
 partial def runTpCase (lines : Array String) : Array String := Id.run do
   let mut out : Array String := #[]
   let mut cs : TpSide := {}
   let mut ss : TpSide := {}
+  -- the two-party model of `WsModel/TwoParty.lean` (what the C04 pair theorems are about), run in
+  -- lockstep: same user calls, same number of bytes delivered, same write / flush events
+  let mut pair : Option Pair := none
+  let mut pairBad : Option String := none
   let mut drops : List (String × Nat) := []
   let mut opCount := 0
   let mut i := 0
@@ -1190,11 +1207,40 @@ partial def runTpCase (lines : Array String) : Array String := Id.run do
         me := { me with st := { me.st with world := some w' } }
         for l in ls do out := out.push l
       if sd == "c" then cs := me else ss := me
+      -- lockstep step of the pair model
+      if pair.isNone then
+        match Ctx.new cs.st.role cs.st.cfg (cs.st.pre.getD []), Ctx.new ss.st.role ss.st.cfg (ss.st.pre.getD []) with
+        | some cc, some sc =>
+          pair := some { c := { c := cc, t := { rd := [], wr := [], fl := [] } },
+                         s := { c := sc, t := { rd := [], wr := [], fl := [] } } }
+        | _, _ => pure ()
+      match pair, parseOp (rest.filter (fun t => !t.startsWith "m=")) with
+      | some p, some op =>
+        let who : Side := if sd == "c" then .c else .s
+        let masks := parseMasks toks
+        let p0 : Pair := match who with
+          | .c => { p with c := { p.c with mu := masks, muExhausted := false } }
+          | .s => { p with s := { p.s with mu := masks, muExhausted := false } }
+        let a : Action := { who := who, op := op, deliver := delivered.length, wr := ev.wr, fl := ev.fl }
+        let (p1, o) := p0.step a
+        pair := some p1
+        let sentLen := (p1.me who).t.accepted.length - (p0.me who).t.accepted.length
+        let sent := (p1.me who).t.accepted.drop ((p1.me who).t.accepted.length - sentLen)
+        let implRes := " ".intercalate iop.res
+        if pairBad.isNone then
+          if showOut o != implRes then
+            pairBad := some s!"pair-model-result-differs op#{opCount} side={sd} impl={(implRes.take 60).toString} pair={((showOut o).take 60).toString}"
+          else if sent != iop.wire then
+            pairBad := some s!"pair-model-wire-differs op#{opCount} side={sd}"
+      | _, _ => pure ()
     | tag :: _ =>
       if tag == "io" || tag == "res" || tag == "wire" || tag == "can" then
         i := i + 1
       else if tag == "end" then
         for m in monC04 cs ss drops do out := out.push m
+        match pairBad with
+        | some b => out := out.push s!"mon C04 FAIL {b}"
+        | none => pure ()
         for m in Mon.monC03 cs.ic ++ Mon.monC03 ss.ic ++ Mon.monC07 cs.ic ++ Mon.monC07 ss.ic ++ Mon.monC13 cs.ic ++ Mon.monC13 ss.ic do
           if !(m.endsWith " ok") then out := out.push m
         out := out.push line
